@@ -19,7 +19,8 @@
 (*            exhaustions, "free": splits at any time (for simulation);        *)
 (*            on every path in Paths; each ends with one real pool run         *)
 EXTENDS U64, Json, TLC, FiniteSets
-CONSTANTS Fam, D, Kinds, N, Mode, Paths, Rich
+CONSTANTS Fam, D, Kinds, N, Mode, Paths, Rich,
+          Caps      \* rayon: how many items the base folder takes before it reports full() (0 = never full)
 VARIABLES hist, n, avail, rem, ended, leaves, lastSplit, open, kind, done
 vars == <<hist, n, avail, rem, ended, leaves, lastSplit, open, kind, done>>
 
@@ -79,8 +80,11 @@ RemAfter(o) == CASE o.op \in {"next", "next_back"} -> IF rem > 0 THEN rem - 1 EL
                  [] OTHER -> rem
 
 (* ---- rayon ---- *)
-ParNews == {[op |-> "par_new", n |-> k, haslen |-> hl, len |-> IF hl THEN FromSmall(k) ELSE Zero, pos0 |-> Zero, beh |-> b, fm |-> "fm", path |-> p]
-              : k \in 1..N, hl \in (IF Rich THEN BOOLEAN ELSE {TRUE}), b \in (IF Rich THEN {"AndLeave", "Abandon"} ELSE {"AndLeave"}), p \in Paths}
+ParNews == {[op |-> "par_new", n |-> k, haslen |-> hl, len |-> IF hl THEN FromSmall(k) ELSE Zero, pos0 |-> Zero, beh |-> b, fm |-> "fm", path |-> p, cap |-> cp]
+              : k \in 1..N, hl \in (IF Rich THEN BOOLEAN ELSE {TRUE}), b \in (IF Rich THEN {"AndLeave", "Abandon"} ELSE {"AndLeave"}), p \in Paths,
+                cp \in Caps}
+Cap == hist[1].cap
+LeafFull(l) == Cap > 0 /\ l.base >= Cap
 Size(l) == l.hi - l.lo
 Rev == hist[1].path = "producer_rev"
 Adaptor == CASE hist[1].path = "consumer" -> "plain" [] hist[1].path = "unindexed" -> "filter" [] hist[1].path = "producer_rev" -> "rev" [] OTHER -> "zip"
@@ -88,17 +92,25 @@ ParSplit == \E id \in DOMAIN leaves : \E at \in 1..(Size(leaves[id]) - 1) :
               /\ leaves[id].st = "fresh" /\ (Mode = "free" \/ (id > lastSplit /\ open = 0 /\ \A j \in DOMAIN leaves : leaves[j].st = "fresh"))
               /\ LET l == leaves[id] IN
                  leaves' = [j \in (DOMAIN leaves \ {id}) \cup {2 * id, 2 * id + 1} |->
-                              IF j = 2 * id THEN [lo |-> l.lo, hi |-> l.lo + at, taken |-> 0, st |-> "fresh"]
-                              ELSE IF j = 2 * id + 1 THEN [lo |-> l.lo + at, hi |-> l.hi, taken |-> 0, st |-> "fresh"] ELSE leaves[j]]
+                              IF j = 2 * id THEN [lo |-> l.lo, hi |-> l.lo + at, taken |-> 0, st |-> "fresh", base |-> 0]
+                              ELSE IF j = 2 * id + 1 THEN [lo |-> l.lo + at, hi |-> l.hi, taken |-> 0, st |-> "fresh", base |-> 0] ELSE leaves[j]]
               /\ hist' = Append(hist, [op |-> "split", node |-> id, at |-> at]) /\ lastSplit' = id /\ UNCHANGED open
 ParItem == \E id \in DOMAIN leaves :
-              /\ leaves[id].taken < Size(leaves[id]) /\ (Mode # "leaf" \/ open \in {0, id})
+              /\ leaves[id].taken < Size(leaves[id]) /\ (Mode # "leaf" \/ open \in {0, id}) /\ ~LeafFull(leaves[id])
               /\ LET l == leaves[id] IN
                  /\ hist' = Append(hist, [op |-> "item", node |-> id, want |-> IF Rev THEN l.hi - 1 - l.taken ELSE l.lo + l.taken])
-                 /\ leaves' = [leaves EXCEPT ![id].taken = @ + 1, ![id].st = "open"]
+                 /\ leaves' = [leaves EXCEPT ![id].taken = @ + 1, ![id].st = "open", ![id].base = @ + 1]
+              /\ open' = id /\ UNCHANGED lastSplit
+(* Folder::consume_iter: k items handed over at once; a base folder that becomes full() takes only a prefix, the rest is never produced *)
+ParItems == \E id \in DOMAIN leaves : \E k \in 2..(Size(leaves[id]) - leaves[id].taken) :
+              /\ hist[1].path \in {"consumer", "unindexed"} /\ (Mode # "leaf" \/ open \in {0, id}) /\ ~LeafFull(leaves[id])
+              /\ LET l == leaves[id]
+                     got == IF Cap > 0 /\ l.base + k > Cap THEN Cap - l.base ELSE k
+                 IN /\ hist' = Append(hist, [op |-> "items", node |-> id, want |-> l.lo + l.taken, k |-> k, expect |-> got])
+                    /\ leaves' = [leaves EXCEPT ![id].taken = IF got < k THEN Size(l) ELSE @ + k, ![id].st = "open", ![id].base = @ + got]
               /\ open' = id /\ UNCHANGED lastSplit
 ParEnd == \E id \in DOMAIN leaves :
-              /\ leaves[id].taken = Size(leaves[id]) /\ leaves[id].st = "open"
+              /\ (leaves[id].taken = Size(leaves[id]) \/ LeafFull(leaves[id])) /\ leaves[id].st = "open"
               /\ hist' = Append(hist, [op |-> "end", node |-> id]) /\ leaves' = [leaves EXCEPT ![id].st = "ended"]
               /\ open' = 0 /\ UNCHANGED lastSplit
 ParComplete == \A id \in DOMAIN leaves : leaves[id].st = "ended"
@@ -107,7 +119,7 @@ News == CASE Fam \in {"script", "io", "buf", "aio"} -> IoNews [] Fam \in {"iter"
 Alphabet == CASE Fam = "script" -> ScriptOps [] Fam = "io" -> IoOps [] Fam = "buf" -> BufOps [] Fam = "aio" -> AioOps [] Fam = "iter" -> IterOps [] OTHER -> StreamOps
 
 Init == /\ \E o \in News : hist = <<o>> /\ rem = (IF Fam \in {"iter", "stream"} THEN o.items ELSE 0)
-                           /\ leaves = (IF Fam = "par" THEN (1 :> [lo |-> 0, hi |-> o.n, taken |-> 0, st |-> "fresh"]) ELSE <<>>)
+                           /\ leaves = (IF Fam = "par" THEN (1 :> [lo |-> 0, hi |-> o.n, taken |-> 0, st |-> "fresh", base |-> 0]) ELSE <<>>)
         /\ kind \in (IF Fam = "script" THEN Kinds ELSE {""})
         /\ n = 0 /\ avail = 0 /\ ended = FALSE /\ lastSplit = 0 /\ open = 0 /\ done = FALSE
 SeqStep == /\ Fam # "par" /\ n < D /\ ~ended
@@ -116,7 +128,7 @@ SeqStep == /\ Fam # "par" /\ n < D /\ ~ended
                 /\ hist' = Append(hist, o) /\ avail' = AvailAfter(o) /\ rem' = RemAfter(o)
                 /\ ended' = (Fam = "stream" /\ o.op = "poll_next" /\ o.rs = <<>> /\ rem = 0)      \* a stream is not polled again after None
            /\ n' = n + 1 /\ UNCHANGED <<leaves, lastSplit, open, kind, done>>
-ParStepA == /\ Fam = "par" /\ (ParSplit \/ ParItem \/ ParEnd)
+ParStepA == /\ Fam = "par" /\ (ParSplit \/ ParItem \/ ParItems \/ ParEnd)
             /\ n' = n + 1 /\ UNCHANGED <<avail, rem, ended, kind, done>>
 Finished == IF Fam = "par" THEN ParComplete ELSE (n = D \/ ended)
 Ending == IF Fam = "par" THEN <<[op |-> "done"], [op |-> "pool", n |-> hist[1].n, haslen |-> hist[1].haslen, len |-> hist[1].len, pos0 |-> Zero, beh |-> hist[1].beh, fm |-> "fm",
